@@ -16,6 +16,14 @@ _TOKEN_RE = re.compile(r'''
   | (?P<string>"(?:[^"\\\n\r]|\\(?:u[0-9a-fA-F]{4}|["\\/bfnrt]))*")
 ''', re.X)
 
+_TYPE_SYSTEM_KINDS = {
+    'schema': 'SchemaDefinition', 'scalar': 'ScalarTypeDefinition', 'type': 'ObjectTypeDefinition',
+    'interface': 'InterfaceTypeDefinition', 'union': 'UnionTypeDefinition', 'enum': 'EnumTypeDefinition',
+    'input': 'InputObjectTypeDefinition', 'directive': 'DirectiveDefinition',
+}
+_TYPE_SYSTEM_KEYWORDS = set(_TYPE_SYSTEM_KINDS) | {'extend'}
+
+
 class Tok:
     __slots__ = ("kind", "value", "line", "col", "eline", "ecol")
     def __init__(s, kind, value, line, col, eline, ecol):
@@ -142,7 +150,51 @@ class Parser:
             return self.operation()
         if self.at('name', 'fragment'):
             return self.fragment_def()
+        if self.at('string') or (self.at('name') and self.tok.value in _TYPE_SYSTEM_KEYWORDS):
+            return self.type_system_definition()
         self.err()
+
+    def type_system_definition(self):
+        """libgraphqlparser also accepts type-system definitions in a document; the
+        engine only looks at their `kind`.  Parsed loosely: keyword, name, then a
+        balanced body up to the next top-level definition keyword."""
+        start = self.tok
+        self.opt('string')  # description
+        kw = self.eat('name').value
+        ext = kw == 'extend'
+        if ext:
+            kw = self.eat('name').value
+        if kw not in _TYPE_SYSTEM_KINDS:
+            self.i -= 1
+            self.err()
+        name = None
+        if kw == 'directive':
+            self.eat('punct', '@')
+            name = self.name()
+        elif kw != 'schema':
+            name = self.name()
+        depth = 0
+        while not self.at('eof'):
+            t = self.tok
+            if t.kind == 'punct' and t.value in '{([':
+                depth += 1
+            elif t.kind == 'punct' and t.value in '})]':
+                depth -= 1
+                if depth < 0:
+                    self.err()
+            elif depth == 0 and (
+                (t.kind == 'punct' and t.value == '{')
+                or (t.kind == 'name' and t.value in ('query', 'mutation', 'subscription', 'fragment') and kw not in ('directive', 'schema'))
+                or (t.kind == 'name' and t.value in _TYPE_SYSTEM_KEYWORDS and kw != 'directive')
+            ):
+                break
+            self.i += 1
+        if depth != 0:
+            self.err()
+        kind = _TYPE_SYSTEM_KINDS[kw]
+        if ext:
+            kind = kind.replace('Definition', 'Extension')
+        return {"kind": kind, "loc": _loc(start, self.prev), "name": name}
 
     def operation(self):
         start = self.eat('name')
